@@ -442,6 +442,24 @@ def run_shard(ctx, spec):
                 ctx.violation('mapping:self-not-identity', 'a geometry mapped onto itself gives %r' % (bad[:3],), case)
         if i % 3 == 0:
             check_model_transfer(ctx, S, case)
+        if i % 4 == 1 and S.num_columns > 1:
+            # the same source object, moved in place after it has served as a source: the second mapping must be the
+            # nearest-centre mapping of the geometry as it is NOW
+            import numpy as np
+            dxy = [0.37 * (max(c.centre[0] for c in S.columnlist) - min(c.centre[0] for c in S.columnlist) + 10.0),
+                   -0.21 * (max(c.centre[1] for c in S.columnlist) - min(c.centre[1] for c in S.columnlist) + 10.0), 0.0]
+            with ctx.guard(case, where='move-source') as g:
+                S.translate(np.array(dxy))
+            if g.raised is None and no_ties(S, T):
+                case2 = dict(case, source_moved=dxy)
+                ctx.count('mappings_after_moving_the_source')
+                check_mapping(ctx, S, T, case2, combo + ':source-moved')
+                with ctx.guard(case2, where='self-mapping-after-move') as g:
+                    selfmap = S.block_mapping(S)
+                if g.raised is None:
+                    bad = [(k2, v) for k2, v in selfmap.items() if k2 != v]
+                    if bad:
+                        ctx.violation('mapping:self-not-identity:source-moved', 'a moved geometry mapped onto itself gives %r' % (bad[:3],), case2)
         ctx.case(repr(desc), nontrivial=True, sample=(i < 1))
 
 
